@@ -28,7 +28,7 @@ def build_caps(b, gen):
 
 def build_e3(b, gen, name="e3"):
     exe = os.path.join(b.dir, name)
-    b.compile_harness([os.path.join(VERIF, "src", "e3_main.cpp")], exe, flags=["-O1", "-w"], incs=[gen])
+    b.compile_harness([os.path.join(VERIF, "src", "e3_main.cpp")], exe, flags=["-O1", "-w", "-pthread"], incs=[gen])
     return exe
 
 
@@ -64,7 +64,7 @@ def check_c13(tier):
     recs = run_e3(exe, ["--mode", "c13", "--tier", tier], os.path.join(b.dir, "c13.out"))
     bx = vbuild.Build("exceptions", extra_flags=["-DMASA_EXCEPTIONS"], root=b.root).build()
     exx = os.path.join(bx.dir, "e3x")
-    bx.compile_harness([os.path.join(VERIF, "src", "e3_main.cpp")], exx, flags=["-O1", "-w", "-DMASA_EXCEPTIONS"], incs=[gen])
+    bx.compile_harness([os.path.join(VERIF, "src", "e3_main.cpp")], exx, flags=["-O1", "-w", "-pthread", "-DMASA_EXCEPTIONS"], incs=[gen])
     recs2 = run_e3(exx, ["--mode", "c13", "--tier", tier, "--exceptions"], os.path.join(bx.dir, "c13x.out"))
     a = [r for r in recs if r["k"] == "c13a"][0]
     bb = [r for r in recs2 if r["k"] == "c13b"][0]
